@@ -251,7 +251,7 @@ def run_item(item):
             on_exec((), root)
         for i, kid in enumerate(tx.children(root.choices, 0, pb)):
             if i % nsh == shard:
-                tx.explore(run_one, pb, root=kid, on_exec=on_exec)
+                tx.explore(run_one, pb, root=kid, on_exec=on_exec, stop=lambda: st.extra.get('violations_total', 0) >= 12)
     except tx.Divergence as e:
         raise common.MachineryError(f'world {w}: {e}')
     finally:
